@@ -43,18 +43,28 @@ let handle kind c =
     let now0 = next_z c in
     let now1 = next_z c in
     let w = next_z c in
+    let after1 = next_bytes c in
     let n1 = next_z c in
     let n2 = next_z c in
     let b0 = next_z c in let e0 = next_z c in
     let b1 = next_z c in let e1 = next_z c in
+    let w1 = (match weekend_of_bytes after1 with Some x -> x | None -> w) in
     let files = next_list c (fun c -> let tb = next_bytes c in let te = next_bytes c in let v = next_z c in (tb, te, v)) in
     let s0 = counter_span now0 w in
-    let s1 = counter_span now1 w in
+    let s1 = counter_span now1 w1 in
     check_eq "rot-span0" (fun (a, b) -> tok_of_z a ^ "," ^ tok_of_z b) s0 (b0, e0);
     check_eq "rot-span1" (fun (a, b) -> tok_of_z a ^ "," ^ tok_of_z b) s1 (b1, e1);
-    let keeps = rotate_keeps s0 now1 w in
+    let keeps = rotate_keeps s0 now1 w1 in
+    if not (span_ok now1 w1 (b1, e1)) then
+      prop "span-shape" (Printf.sprintf "second rotation: now=%s weekend=%s begin=%s end=%s"
+                           (tok_of_z now1) (tok_of_z w1) (tok_of_z b1) (tok_of_z e1));
+    (* same begin date (same file name) but another end - possible only when the
+       setting changed and rotate1 runs again the same day: openMapped refuses the
+       first file's header (second_opener) and the process stops counting *)
+    let refused = (not keeps) && second_opener s0 s1 = None in
     let expect =
       if keeps then [ (meta_time_begin s0, meta_time_end s0, Z.add n1 n2) ]
+      else if refused then [ (meta_time_begin s0, meta_time_end s0, n1) ]
       else List.sort compare [ (meta_time_begin s0, meta_time_end s0, n1); (meta_time_begin s1, meta_time_end s1, n2) ] in
     let show l = String.concat ";" (List.map (fun (a, b, v) -> string_of_bytes a ^ "|" ^ string_of_bytes b ^ "=" ^ tok_of_z v) l) in
     check_eq "rot-files" show expect (List.sort compare files);
@@ -113,6 +123,9 @@ let handle kind c =
     if consumed then begin
       if nrep <> 1 then diff "upload-nreports" ~model:"1" ~impl:(string_of_int nrep);
       check_eq "upload-week" string_of_bytes (uploader_week e) week;
+      (* property oracle: the week is named by the (UTC) date of the recorded end *)
+      if week <> uploader_week e then
+        prop "week-named-by-end-date" (Printf.sprintf "recorded end=%s reported under week %s" (tok_of_z e) (string_of_bytes week));
       ignore w
     end else if nrep <> 0 then diff "upload-nreports" ~model:"0" ~impl:(string_of_int nrep)
   | k -> diff "unknown-case-kind" ~model:k ~impl:"-"
